@@ -409,4 +409,113 @@ theorem Graph.deps_pop (g : Graph) (d : Comp) : (g.pop d).deps d = none := by
       simp only [Graph.pop, List.filter_cons, this, if_true, Graph.deps, h, if_false]
       exact ih
 
+/-! ### path components, lexical resolution, mangled names -/
+
+theorem splitPath_ne_nil (s : Str) : splitPath s ≠ [] := by
+  cases s with
+  | nil => simp [splitPath]
+  | cons c t =>
+    simp only [splitPath]
+    split
+    · simp
+    · split <;> simp
+
+theorem splitPath_no_sep (b : Str) (h : sep ∉ b) : splitPath b = [b] := by
+  induction b with
+  | nil => rfl
+  | cons c t ih =>
+    have hc : c ≠ sep := fun e => h (by simp [e])
+    have ht : sep ∉ t := fun m => h (List.mem_cons_of_mem _ m)
+    simp [splitPath, hc, ih ht]
+
+theorem splitPath_append_sep (a b : Str) : splitPath (a ++ sep :: b) = splitPath a ++ splitPath b := by
+  induction a with
+  | nil => simp [splitPath]
+  | cons c t ih =>
+    by_cases hc : c = sep
+    · simp [splitPath, hc, ih]
+    · simp only [List.cons_append, splitPath, hc, if_false, ih]
+      cases hs : splitPath t with
+      | nil => exact absurd hs (splitPath_ne_nil t)
+      | cons h r => simp
+
+theorem resolveBelow_isSome (stack comps : List Str) (h : dotdot ∉ comps) :
+    (resolveBelow stack comps).isSome = true := by
+  induction comps generalizing stack with
+  | nil => simp [resolveBelow]
+  | cons c rest ih =>
+    have hc : c ≠ dotdot := fun e => h (by simp [e])
+    have hr : dotdot ∉ rest := fun m => h (List.mem_cons_of_mem _ m)
+    simp only [resolveBelow]
+    split
+    · exact ih _ hr
+    · first
+        | exact ih _ hr
+        | (rw [if_neg hc]; exact ih _ hr)
+
+theorem rstripP_subset (p : Char → Bool) (s : Str) : ∀ x ∈ rstripP p s, x ∈ s := by
+  induction s with
+  | nil => simp [rstripP]
+  | cons c t ih =>
+    intro x hx
+    simp only [rstripP] at hx
+    split at hx
+    · split at hx
+      · simp at hx
+      · simp only [List.mem_cons, List.not_mem_nil, or_false] at hx; simp [hx]
+    · rename_i r hr
+      rcases List.mem_cons.mp hx with e | m
+      · simp [e]
+      · exact List.mem_cons_of_mem _ (ih x m)
+
+theorem rstripP_head (p : Char → Bool) (c : Char) (t : Str) (h : p c = false) :
+    ∃ r, rstripP p (c :: t) = c :: r := by
+  simp only [rstripP]
+  split
+  · exact ⟨[], by simp [h]⟩
+  · exact ⟨_, rfl⟩
+
+theorem exists_of_endsWithC (c : Char) (s : Str) (h : endsWithC c s = true) : ∃ s0, s = s0 ++ [c] := by
+  unfold endsWithC at h
+  cases hr : s.reverse with
+  | nil => simp [hr, startsWithC] at h
+  | cons d t =>
+    simp only [hr, startsWithC, beq_iff_eq] at h
+    refine ⟨t.reverse, ?_⟩
+    have := congrArg List.reverse hr
+    simpa [h] using this
+
+/-- a path is what precedes its base name (empty, or ending in '/') followed by the base name -/
+theorem basename_decomp (p : Str) :
+    ∃ q, p = q ++ basename p ∧ (q = [] ∨ ∃ q0, q = q0 ++ [sep]) := by
+  refine ⟨(p.reverse.dropWhile (· != sep)).reverse, ?_, ?_⟩
+  · unfold basename
+    have := List.takeWhile_append_dropWhile (p := (· != sep)) (l := p.reverse)
+    have h2 := congrArg List.reverse this
+    simp only [List.reverse_append, List.reverse_reverse] at h2
+    exact h2.symm
+  · cases hd : p.reverse.dropWhile (· != sep) with
+    | nil => left; simp
+    | cons d t =>
+      right
+      have hhead := List.head_dropWhile_not (· != sep) (l := p.reverse) (by simp [hd])
+      have : d = sep := by simpa [hd] using hhead
+      exact ⟨t.reverse, by simp [this]⟩
+
+theorem basename_mem_splitPath (p : Str) : basename p ∈ splitPath p := by
+  obtain ⟨q, hq, hcase⟩ := basename_decomp p
+  have hb := splitPath_no_sep (basename p) (basename_no_sep p)
+  rcases hcase with e | ⟨q0, e⟩
+  · rw [e] at hq; simp only [List.nil_append] at hq
+    have : splitPath p = [basename p] := by
+      conv => lhs; rw [hq]
+      exact hb
+    rw [this]; simp
+  · rw [e] at hq
+    have : p = q0 ++ sep :: basename p := by simpa using hq
+    have h2 : splitPath p = splitPath q0 ++ [basename p] := by
+      conv => lhs; rw [this]
+      rw [splitPath_append_sep, hb]
+    rw [h2]; simp
+
 end IV.Serde
